@@ -127,7 +127,7 @@ Definition spec_forwarded_clients (h : hdrs) : list string :=
   end.
 
 Definition spec_view_trusted (parse_uri : string -> option (string * string)) (c : conn) (h : hdrs) : view :=
-  let uri := match hdr XFU h with Some v => if nonempty v then parse_uri v else None | None => None end in
+  let uri := match hdr XFU h with Some v => if nonempty v then Some (read_uri parse_uri v) else None | None => None end in
   {| v_method := override (hdr XFM h) (c_method c);
      v_scheme := override (hdr XFP h) (actual_scheme c);
      v_host := override (hdr XFH h) (c_host c);
@@ -503,7 +503,7 @@ Section WithOracle.
     rewrite !override_get. rewrite !get_hdr.
     destruct (hdr XFU h) as [u|] eqn:Eu; cbn [nonempty].
     - destruct (nonempty u) eqn:Enu.
-      + destruct (parse_uri u) as [[p q]|]; cbn [fst snd option_map override];
+      + destruct (read_uri parse_uri u) as [p q]; cbn [fst snd option_map override];
           destruct (hdr FWD h) as [fw|]; try destruct (nonempty fw);
           destruct (hdr XFF h) as [x|]; try destruct (nonempty x); reflexivity.
       + cbn [fst snd option_map override];
@@ -649,7 +649,7 @@ Proof. intros Hes Hp Hl. apply not_passed_on_gen; try assumption. discriminate. 
 Theorem trusted_overrides_gen parse_uri fixed es peer c h :
   Forall wf_entry es -> wf_ip peer -> listed es peer ->
   s_view (serve parse_uri fixed es peer c h) =
-  let uri := match hdr XFU h with Some v => if nonempty v then parse_uri v else None | None => None end in
+  let uri := match hdr XFU h with Some v => if nonempty v then Some (read_uri parse_uri v) else None | None => None end in
   {| v_method := override (hdr XFM h) (c_method c);
      v_scheme := override (hdr XFP h) (if c_tls c then "https" else "http");
      v_host := override (hdr XFH h) (c_host c);
